@@ -281,7 +281,11 @@ def generate(rng: random.Random, profile: Optional[Dict[str, Any]] = None) -> Di
                 else:
                     rw["new"] = ["text", rng.choice([f"{m}", f"({m})", f"{m}[0]"])]
         if faults_enabled["poison_text"] and rng.random() < 0.12 and rw["new"][0] != "del":
-            rw["new"] = ["text", f"{rw['marker']} {POISON}"]
+            if kind == "insert":
+                # an insertion is positioned by its node: the poison has to be a node as well
+                rw["new"] = ["ast_stmt_poison", f"{rw['marker']} {POISON}"]
+            else:
+                rw["new"] = ["text", f"{rw['marker']} {POISON}"]
             rw["poison"] = True
         elif faults_enabled["poison_ast"] and rng.random() < 0.12 and rw["new"][0] in ("ast_expr",):
             rw["new"] = ["ast_name", f"{rw['marker']} {POISON}"]
@@ -372,6 +376,14 @@ def _build_new(spec: List[Any], target: List[Any]) -> Any:
         return ast.parse(spec[1], mode="eval").body
     if kind == "ast_name":
         return ast.Name(id=spec[1], ctx=ast.Load())
+    if kind == "ast_stmt_poison":
+        node = ast.Expr(value=ast.Name(id=spec[1], ctx=ast.Load()))
+        if target[0] == "insert":
+            node.lineno = target[1]
+            node.col_offset = target[2]
+        else:
+            node.lineno, node.col_offset = 1, 0
+        return node
     raise ValueError(kind)
 
 
@@ -663,7 +675,7 @@ def analyse(case: Dict[str, Any], out: str) -> Tuple[Optional[Dict[str, Any]], D
 
     def viol(cls: str, detail: str):
         v = {"class": cls, "detail": detail}
-        if cls in ("dropped-without-reason", "spurious-rollback", "frame", "frame-order", "invalid-output") and _shifted_insert_pattern():
+        if cls in ("dropped-without-reason", "spurious-rollback", "frame", "frame-order", "invalid-output", "atomicity", "rewrite-applied-twice") and _shifted_insert_pattern():
             v["finding_key"] = "e1:insert-at-start-of-removed-indented-line"
         return (v, stats, signature)
 
